@@ -165,3 +165,21 @@ Example C04_wrap_demo :
   compare n (APtr (Some (VStruct [VInt 44]))) OEq "300" ["F"] false = Ret true None /\
   parse_operand (LScalar (SInt KInt8)) "300" = OpRange.
 Proof. vm_compute. split; reflexivity. Qed.
+
+(* ---- tie to the source, re-checked on every run: the conversion of the operand is the library's own snippet for the
+   leaf's kind, and "nil" is the library's Nil constant.  Gen/SourceFacts.v is regenerated from /repo by
+   harness/cmd/srcfacts before the build (lib/srcfacts.py). *)
+From Verif Require Snippets SourceFacts SnippetTable.
+
+Theorem C04_snippet_table_is_the_source : Snippets.table_matches SourceFacts.snippet_facts = true.
+Proof. exact SnippetTable.table_is_source. Qed.
+Print Assumptions C04_snippet_table_is_the_source.
+
+Theorem C04_operand_conversion_is_the_table : forall k right,
+  conv_operand (LScalar k) right = Snippets.run_conv (Snippets.conv_of_skind k) k right.
+Proof. exact SnippetTable.conv_operand_table. Qed.
+Print Assumptions C04_operand_conversion_is_the_table.
+
+Theorem C04_nil_word_is_the_source : SourceFacts.src_nil_word = "nil"%string.
+Proof. exact SnippetTable.nil_word_is_source. Qed.
+Print Assumptions C04_nil_word_is_the_source.
